@@ -14,8 +14,8 @@ MIN_CASES = {"quick": 2000, "thorough": 30000}
 EXHAUSTIVE_CLAIM = True
 RULE = ("add-histories on a fresh HostnameTrieSet: every sequence of length <= 3 (quick) / <= 4 (thorough) over the 14 hostnames of depth <= 3 "
         "on labels {a,b} (thorough also <= 3 over 39 hostnames on {a,b,c}), then seeded random histories of 5-40 adds over realistic labels "
-        "(upper case, punycode/Unicode spellings, surrounding whitespace); after each history: match() on every hostname of depth <= 4 in 4 URL "
-        "embeddings (bare, http://H/p, https://u:p@H:8080/x?y#z, SplitResult), len, set(iter), duplicates in iter, all compared with a shadow set. "
+        "(upper case, punycode/Unicode spellings, surrounding whitespace); after each history: match() on every hostname of depth <= 4 in 7 URL "
+        "embeddings (bare, http://H/p, https://u:p@H:8080/x?y#z, SplitResult, H:8080/x, H/p?q#f, //H/p), len, set(iter), duplicates in iter, all compared with a shadow set. "
         "A case is one history; non-trivial = contains an add that is ignored (shorter exists), prunes (longer exists) or repeats; distinct = distinct history.")
 ASSUMPTIONS = ["reference model: set of canonical hostnames (strip, lower, per-label IDNA decode); subdomain = whole-label suffix",
                "IP literals / localhost are excluded, as the class documents", "ground-truth hostname known from the generator"]
@@ -76,7 +76,7 @@ def walk_invariant(ctx, hts, history):
 
 def embeddings(host):
     return [("bare", host), ("http", "http://%s/p" % host), ("full", "https://u:p@%s:8080/x?y=1#z" % host),
-            ("split", urlsplit("http://%s/q" % host))]
+            ("split", urlsplit("http://%s/q" % host)), ("bare-port", "%s:8080/x" % host), ("bare-path", "%s/p?q=1#f" % host), ("slashes", "//%s/p" % host)]
 
 
 def check_history(ctx, HTS, adds, query_hosts):
@@ -164,11 +164,11 @@ DIRECTED = [
     ["lemonde.fr", "www.lemonde.fr"], ["www.lemonde.fr", "lemonde.fr"], ["a.b.c.fr", "d.c.fr", "c.fr"],
     ["Lemonde.FR ", "lemonde.fr"], ["xn--tlrama-bvab.fr", "télérama.fr"], ["télérama.fr"], ["XN--TLRAMA-BVAB.FR"],
     ["a.fr", "b.a.fr", "c.b.a.fr", "fr"], ["b.a.fr", "c.a.fr", "d.c.a.fr", "a.fr"], ["com", "com"],
-    ["localhost.example.com"], ["1.2.3.4.example.com", "example.com"], ["feed.example.com", "cafe.example.com"],
+    ["localhost.example.com"], ["1.2.3.4.example.com", "example.com"], ["feed.example.com", "cafe.example.com"], ["cafe.be", "abc.de"], ["be"],
 ]
 DIRECTED_Q = ["lemonde.fr", "www.lemonde.fr", "xlemonde.fr", "fr", "a.b.c.fr", "c.fr", "x.c.fr", "d.c.fr", "télérama.fr", "xn--tlrama-bvab.fr",
               "www.xn--tlrama-bvab.fr", "a.fr", "b.a.fr", "x.c.b.a.fr", "com", "x.com", "localhost.example.com", "example.com", "1.2.3.4.example.com",
-              "x.localhost.example.com", "feed.example.com", "x.cafe.example.com", "fe.example.com"]
+              "x.localhost.example.com", "feed.example.com", "x.cafe.example.com", "fe.example.com", "cafe.be", "www.cafe.be", "abc.de", "f.abc.de", "dead.beef.cafe.be"]
 
 REAL_LABELS = ["lemonde", "fr", "com", "co", "uk", "www", "blog", "news", "télérama", "xn--tlrama-bvab", "bücher", "xn--bcher-kva", "example", "m", "x1", "a-b", "feed", "cafe"]
 
